@@ -255,14 +255,9 @@ impl<'buf, 'fds> Variant<'fds, 'buf> {
     ) -> UnmarshalResult<Self> {
         ctx.align_to(sig.get_alignment())?;
 
-        let val_bytes =
-            crate::wire::validate_raw::validate_marshalled(ctx.byteorder, 0, ctx.remainder(), &sig)
-                .map_err(|e| e.1)?;
+        let sub_ctx = ctx.sub_context_for_value(&sig)?;
 
-        Ok(Variant {
-            sig,
-            sub_ctx: ctx.sub_context(val_bytes)?,
-        })
+        Ok(Variant { sig, sub_ctx })
     }
 }
 
